@@ -218,10 +218,14 @@ def main():
     ap.add_argument("--jobs", type=int, default=4)
     ap.add_argument("--files", default="")
     ap.add_argument("--list", action="store_true")
+    ap.add_argument("--kinds", default="", help="comma-separated prefixes of the mutant description to keep (e.g. 'delete guard')")
     ap.add_argument("--no-tests", action="store_true", help="do not run the test suite (every behaviour-changing mutant is kept)")
     a = ap.parse_args()
     NO_TESTS[0] = a.no_tests
     muts = all_mutants(set(a.files.split(",")) if a.files else None)
+    if a.kinds:
+        ks = tuple(a.kinds.split(","))
+        muts = [m for m in muts if m["desc"].startswith(ks)]
     if a.list:
         by = {}
         for m in muts:
